@@ -1,8 +1,12 @@
 import PedalModel.DriverLoop
+import PedalModel.TifaWrapper
 open Pedal
 
-/- Line-protocol driver for C18: replace the stub dispatch with the model's request handlers. -/
+/- Line-protocol driver for C18: wrapper/cache histories, node-class dispatch, builtin table rows. -/
 def dispatch : List String → String
+  | "wrap" :: ts => TifaWrapper.handle ts
+  | "dispatch" :: ts => TifaWrapper.handleDispatch ts
+  | "rows" :: ts => TifaWrapper.handleRows ts
   | _ => "bad-request"
 
 def main : IO Unit := driverMain dispatch
